@@ -98,7 +98,7 @@ class MemFS:
         self.opened.append(r)
         if "b" in mode:
             return io.BytesIO(self.files[r].encode())
-        return io.StringIO(self.files[r])
+        return TextFile(self.files[r])
 
     def listing(self, d):
         """all files and links (recursively) under directory d, unresolved spellings"""
@@ -127,6 +127,38 @@ class MemFS:
             os.makedirs(os.path.dirname(q), exist_ok=True)
             if not os.path.lexists(q):
                 os.symlink(root + t, q)
+
+
+class TextFile:
+    """pure-Python read-only text file (keeps a CrossHair symbolic str symbolic, unlike io.StringIO)"""
+
+    def __init__(self, text):
+        self.text = text
+
+    def __enter__(self):
+        return self
+
+    def __exit__(self, *a):
+        return False
+
+    def __iter__(self):
+        t = self.text
+        start = 0
+        n = len(t)
+        i = 0
+        while i < n:
+            if t[i] == "\n":
+                yield t[start:i + 1]
+                start = i + 1
+            i += 1
+        if start < n:
+            yield t[start:]
+
+    def read(self):
+        return self.text
+
+    def close(self):
+        pass
 
 
 class _PathFacade:
